@@ -294,6 +294,17 @@ def run(prop, tier, seed):
                       "tolerances of DESIGN 5.2"]
     try:
         cfg = "SPECIFICATION Spec\nCONSTANT MaxLen = 4\nINVARIANT WarmSound\nCHECK_DEADLOCK FALSE\n"
+        # design model of the buffers of a path (specs/solvers/PathCore.tla): holds for the code's constants, refuted
+        # for the two variants it must exclude (a view instead of a copy; the intercept dropped from the warm fit)
+        rd = tlc.run("PathCore", "PathCore_design.cfg", timeout=300)
+        ck.add_tlc(rd, name="PathCore design (INVARIANTS StoredStable, FitConsistent)", kind="design")
+        if rd["violated"]:
+            ck.machinery(f"PathCore design constants violate {rd['violated']}")
+        for neg, inv in (("PathCore_neg_view.cfg", "StoredStable"), ("PathCore_neg_intercept.cfg", "FitConsistent")):
+            rn = tlc.run("PathCore", neg, timeout=300)
+            ck.cov["design_models"].append(dict(name=f"PathCore {neg}", violated=rn["violated"], expected_to_violate=True))
+            if inv not in rn["violated"]:
+                ck.cov["notes"].append(f"{neg} no longer violates {inv}: the negative model lost its teeth")
         r = tlc.run("Path", cfg_text=cfg, simulate=f"num={N_HIST[tier]}", depth=8, seed=seed, timeout=600)
         hists = r["printed"]
         ck.add_tlc(dict(distinct=len(hists), states=len(hists), wall_s=r["wall_s"]),
